@@ -655,7 +655,7 @@ def run(chk):
         # a proof obligation no longer checks; the violations found above (if any) are its replay
         handle_broken(chk, search_fn=lambda b: impl_violation)
 
-    chk.coverage["exhaustive"] = "all 64 permission assignments for every random program; 7 assignments for every (function, path) pair"
+    chk.coverage["exhaustive_note"] = "all 64 permission assignments for every random program; 7 assignments for every (function, path) pair"
     return chk.finish(rule="(effectful library function, path to it, permission assignment) triples; non-trivial = distinct (path label, "
                            "assignment) pairs in which at least one reached function's permission is off")
 
